@@ -24,7 +24,7 @@ const (
 type nopObs struct{}
 
 func (nopObs) OnPublishStart(ctx context.Context, _ string, _ any) context.Context { return ctx }
-func (nopObs) OnPublishComplete(context.Context, string)                          {}
+func (nopObs) OnPublishComplete(context.Context, string)                           {}
 func (nopObs) OnHandlerStart(ctx context.Context, _ string, _ bool) context.Context {
 	return ctx
 }
